@@ -49,6 +49,28 @@ Proof.
   intros i Hi. destruct (HP i Hi).
 Qed.
 
+(* The form used since the translator separates a value from what its `.dataset` denotes (IR parameter 2i = the
+   Python argument i, IR parameter 2i+1 = its dataset): when the summary records no write to the input origin and
+   none to any dataset channel, and only dataset channels of the arguments denote the input frame, the input frame is
+   unchanged — also when the function works on datasets of models it created itself, which are other locations. *)
+Theorem argument_datasets_preserved :
+  forall (frame : Type) (mutate : N -> frame -> frame) (dflt : frame)
+         (it : nat) (fdefs : list fdef) (summ : list summary),
+    consistent it fdefs summ = true ->
+    forall (f : fname) (n : nat) (s : state frame) (b : bool) (s' : state frame),
+      input_clean (nth (N.to_nat f) summ dsum) = true ->
+      ds_clean (nth (N.to_nat f) summ dsum) = true ->
+      entry frame (arity (nth (N.to_nat f) fdefs dfdef)) s ->
+      (forall i, In 0 (st s (vparam i)) -> Nat.odd i = true) -> 0 < nx s ->
+      exec frame mutate dflt (fun g => nth (N.to_nat g) fdefs dfdef) n
+           (body (nth (N.to_nat f) fdefs dfdef)) s b s' ->
+      hp s' 0 = hp s 0.
+Proof.
+  intros frame mutate dflt it fdefs summ HC f n s b s' HI HD HE HP Hn EX.
+  apply (checker_sound frame mutate dflt it fdefs summ HC f n s b s' HE EX 0 Hn); [intros _; exact HI|].
+  intros i Hi. apply ds_clean_param; [exact HD | apply HP; exact Hi].
+Qed.
+
 (* A function whose summary records no write at all changes NO pre-existing object. *)
 Theorem pure_function_changes_nothing :
   forall (frame : Type) (mutate : N -> frame -> frame) (dflt : frame)
@@ -150,6 +172,16 @@ Theorem canon_statements_defined_before_use :
     canon base t nan l = None -> g_no_fun_lhs l = true -> g_no_nan nan l = true ->
     defined_before_use (base_of base t l) l = true.
 Proof. exact canon_defined_before_use. Qed.
+
+(* Immutability of the metadata / model classes: a method whose stores after construction are only cache / singleton
+   stores (the regenerated site list of DataInfo, ColumnInfo, Parameter(s), RandomVariables, distributions, statements,
+   execution steps, Model, frozenmapping) leaves every field of the instance as it was — for any sequence of stores,
+   any field, any values. *)
+Theorem immutable_fields_preserved :
+  forall (l : list (skind * nat * nat)) (o : inst),
+    forallb (fun s => post_construction (fst (fst s))) l = true ->
+    forall g, i_fields (run_stores l o) g = i_fields o g.
+Proof. exact run_stores_fields. Qed.
 
 (* ---- equal means equal ------------------------------------------------------------------------------------ *)
 
